@@ -221,6 +221,18 @@ def inner_reach(spec, vals):
     return cur
 
 
+def norm_val(v):
+    """a harness value up to what reflect.DeepEqual sees (members of an object: last duplicate wins, order irrelevant)"""
+    if v[0] == 'a':
+        return ('a', tuple(norm_val(x) for x in v[1]))
+    if v[0] == 'o':
+        d = {}
+        for k, x in v[1]:
+            d[k] = norm_val(x)
+        return ('o', tuple(sorted(d.items())))
+    return tuple(v)
+
+
 def gen_inner(r, child):
     """0..2 inner steps of a filter over a value like child: (text, spec)"""
     text, spec, cur = '', [], child
@@ -299,6 +311,31 @@ def gen_chain(g, filters=0.0, roots=0.0, doc=None, small=False):
                                 break
                         else:
                             it, isp = '', []
+                        if r.random() < 0.4:
+                            # == / != between the two paths: deep equality with the one value the `$` path reaches; when it reaches
+                            # nothing, every member is kept exactly when no member has the inner value either (the both-absent rule)
+                            if r.random() < 0.6 and kids:
+                                for _t in range(24):
+                                    jt2, jsp2 = gen_inner(r, doc)
+                                    if not all(st[0] not in (2, 3, 4) for st in jsp2):
+                                        continue
+                                    hit2 = inner_reach(jsp2, [doc])
+                                    if len(hit2) == 1 and any(norm_val(y) == norm_val(hit2[0]) for k1 in kids for y in inner_reach(isp, [k1])[:1]):
+                                        jt, jsp, hit = jt2, jsp2, hit2
+                                        break
+                            ne = r.random() < 0.4
+                            wv = norm_val(hit[0]) if len(hit) == 1 else None
+
+                            def tq(x, sibs, isp=isp, ne=ne, wv=wv, none=not hit):
+                                if none:
+                                    eq = not any(inner_reach(isp, [y]) for y in sibs)
+                                else:
+                                    got = inner_reach(isp, [x])
+                                    eq = bool(got) and wv is not None and norm_val(got[0]) == wv
+                                return (not eq) if ne else eq
+                            tq.sibs = True
+                            if len(hit) <= 1:
+                                return '@' + it + ('!=' if ne else '==') + '$' + jt, ('pq', isp, ne, jsp), tq
                         oc = r.randrange(2, 6)
                         fv = hit[0][1] if len(hit) == 1 and hit[0][0] == 'n' else None
 
@@ -376,7 +413,9 @@ def gen_chain(g, filters=0.0, roots=0.0, doc=None, small=False):
                 dnf = [[one_bq() for _ in range(r.choice([1, 1, 2] if small else [1, 2, 2, 3]))] for _ in range(r.choice([1, 1, 2] if small else [1, 1, 2, 2, 3]))]
                 text += '[?(' + '||'.join('&&'.join(b[0] for b in conj) for conj in dnf) + ')]'
                 spec.append((10, [[b[1] for b in conj] for conj in dnf]))
-                cur = [x for v in cur for x in chain_children(v) if any(all(b[2](x) for b in conj) for conj in dnf)]
+                def ok_(b, x, sibs):
+                    return b[2](x, sibs) if getattr(b[2], 'sibs', False) else b[2](x)
+                cur = [x for v in cur for sibs in [chain_children(v)] for x in sibs if any(all(ok_(b, x, sibs) for b in conj) for conj in dnf)]
                 continue
             if r.random() < 0.5:
                 # a comparison with a number literal: the inner path must be single-valued (no wildcard, no `..`)
@@ -1724,7 +1763,7 @@ class C08(Prop):
             if len(spec) < 2:
                 continue
             # the continuation Q must not look at the document root (fstep_rootfree): `$` there is the value P reached, not the document
-            rooted = [j for j, st in enumerate(spec) if st[0] == 10 and any(b[0] in ('re', 'rn', 'cr') for conj in st[1] for b in conj)]
+            rooted = [j for j, st in enumerate(spec) if st[0] == 10 and any(b[0] in ('re', 'rn', 'cr', 'pq') for conj in st[1] for b in conj)]
             lo = max(rooted) + 1 if rooted else 1
             if lo > len(spec) - 1:
                 continue
